@@ -150,6 +150,28 @@ CHECKS = {
          'shapes and random sheets under random option vectors: canonicalised source = canonicalised output (colours after normalisation); '
          'catalogue selectors through Lessm.Sel.identParse = real output.'),
    note=BASE_NOTE + ' Open known findings C01-hex-id, C01-star-joined, C01-reserved-words; spaces after a string token or a closing parenthesis are dropped by the lexer filter (same CSS token sequence) and are canonicalised away.'),
+ 'C10': dict(category='proof',
+   technique='Lean 4: fixed-point theorem on the nesting model (embed output, compile again) for all well-formed nested sources, printer cleanliness theorems; fixed-point oracle on the real compiler over all generators and the corpus',
+   text=('C10_idem: for every source satisfying the decidable predicate SourceOK (any nesting depth, any number of & per selector, selector lists, '
+         'combinators) compiling the embedded output of the model again returns it unchanged; C10_fix: the same for any canonical output; '
+         'C10_out_canon / C10_no_amp_tok: outputs of well-formed sources are canonical and contain no &, comma or raw combinator token; C10_type / '
+         'C10_flat: the output type has no constructor for a LESS construct and no empty rule; C10_print_clean / C10_no_amp / C10_no_at: every '
+         'printed character is whitespace or comes from a token of the output tree; C10_other_options: two option vectors print the same tree '
+         '(C11_layout twice). Each hypothesis is shown necessary by an example. Oracle: every program of the generators of C01 C02 C03 C05 C07 C19, '
+         'value programs (arithmetic, colour functions, built-ins, guards, interpolation) and the files of test/less: output free of LESS '
+         'constructs, byte-identical when compiled again with the same options, equal to the source under another option vector.'),
+   note=BASE_NOTE + ' Open known finding C10-media-and-space (merged media queries are a fixed point only up to one blank; both spellings are pinned by the fixtures). Corpus files that use escapes (raw text injection) are skipped.'),
+ 'C15': dict(category='proof',
+   technique='Lean 4: CFG weight/prefix lemmas instantiated by decide +kernel on the grammar regenerated from parser.py, soundness of a validating LR driver; LR model on the regenerated tables vs the real parser on all single corruptions',
+   text=('On the production list regenerated from the yacc docstrings on every run: for each delimiter family (braces, parentheses, interpolated-'
+         'string and escape delimiters) an untrusted certificate written by the extractor is re-checked by decide +kernel (C15_cert_*), hence every '
+         'sentence of the grammar is balanced and no prefix closes more than it opened (C15_balanced_*, derives_weight, derives_prefix); the '
+         'validating LR driver accepts only sentences (C15_sound, for ANY tables), so an unbalanced token stream - block or string open at end '
+         'of input, stray }, missing {, unclosed ( - is never accepted (C15_reject_*). Tie: the driver run on the regenerated LALR tables '
+         'agrees with the real parser on accept/reject and on the token type and line of the first diagnostic for every generated program and '
+         'every single corruption of it. Oracle: all corruption classes raise CompilationError/SyntaxError through lesscpy.compile, the diagnostic '
+         'names the line that contains the token, the CLI reports them.'),
+   note=BASE_NOTE + ' Rejection of non-balance corruptions (missing colon, illegal character, undefined variable) is exercised, not proved; that PLY implements LALR parsing of its tables is assumed and compared on every corrupted input.'),
 }
 NOT_APPLICABLE = {p: 'check under construction in this round (see DESIGN.md section 10 build order); not claimed yet' for p in
-  ['C10','C13','C14','C15','C16','C20']}
+  ['C13','C14','C16','C20']}
